@@ -346,6 +346,50 @@ func init() {
 	reg("github.com/google/uuid.NewRandom", func(c *Ctx, fn *ssa.Function, a []Value) Value {
 		return TupleV{newUUID(c), IfaceV{}}
 	})
+	// sort.Slice / sort.SliceStable: the reflection-based element swapper is provided by the engine, the sorting
+	// algorithm itself (pdqsort_func / stable_func) is the real one, interpreted from source
+	sortSlice := func(algo string) intrinsic {
+		return func(c *Ctx, fn *ssa.Function, a []Value) Value {
+			iv := a[0].(IfaceV)
+			sl, ok := iv.v.(SliceV)
+			if !ok {
+				c.unsupported("sort.Slice on a non-slice")
+			}
+			swap := &ClosureV{native: func(c *Ctx, args []Value) Value {
+				i := int(c.concretizeInt(args[0].(*Term), "sort swap index"))
+				j := int(c.concretizeInt(args[1].(*Term), "sort swap index"))
+				if i < 0 || j < 0 || i >= sl.len || j >= sl.len {
+					c.goPanic("index out of range in sort swap", nil)
+				}
+				arr := c.load(sl.base).(*ArrayV)
+				arr.e[sl.off+i], arr.e[sl.off+j] = arr.e[sl.off+j], arr.e[sl.off+i]
+				return nil
+			}}
+			pkg := c.shared.prog.ImportedPackage("sort")
+			if pkg == nil {
+				c.unsupported("package sort not loaded")
+			}
+			ls := &StructV{f: []Value{a[1], swap}} // sort.lessSwap{Less, Swap}
+			n := c.tb.Const(uint64(sl.len), 64)
+			if algo == "stable_func" {
+				c.callFn(pkg.Func("stable_func"), []Value{ls, n}, nil)
+				return nil
+			}
+			limit := 0
+			for x := sl.len; x > 0; x >>= 1 {
+				limit++
+			}
+			c.callFn(pkg.Func("pdqsort_func"), []Value{ls, c.tb.Const(0, 64), n, c.tb.Const(uint64(limit), 64)}, nil)
+			return nil
+		}
+	}
+	reg("sort.Slice", sortSlice("pdqsort_func"))
+	reg("sort.SliceStable", sortSlice("stable_func"))
+	reg("math/rand.Int math/rand/v2.Int", func(c *Ctx, fn *ssa.Function, a []Value) Value {
+		n, _ := c.extra["randN"].(int)
+		c.extra["randN"] = n + 1
+		return c.tb.Const(uint64(4242+n), 64) // randomness is environment: distinct, deterministic values
+	})
 	// sync.Pool: a LIFO free list per pool (single goroutine); Get on an empty pool calls New
 	reg("(*sync.Pool).Get", func(c *Ctx, fn *ssa.Function, a []Value) Value {
 		p := a[0].(PtrV)
